@@ -269,3 +269,28 @@ impl Var {
         Ok(())
     }
 }
+
+#[cfg(ae9rb_basic_lang_verif)]
+#[allow(clippy::type_complexity)]
+impl Var {
+    /// Verification hook: (variables sorted by key, dimensions sorted by name, 26 type letters I/S/D/T).
+    pub fn verif_parts(&self) -> (Vec<(Rc<str>, Val)>, Vec<(Rc<str>, Vec<i16>)>, String) {
+        let mut vars: Vec<(Rc<str>, Val)> =
+            self.vars.iter().map(|(k, v)| (k.clone(), v.clone())).collect();
+        vars.sort_by(|a, b| a.0.cmp(&b.0));
+        let mut dims: Vec<(Rc<str>, Vec<i16>)> =
+            self.dims.iter().map(|(k, v)| (k.clone(), v.clone())).collect();
+        dims.sort_by(|a, b| a.0.cmp(&b.0));
+        let types = self
+            .types
+            .iter()
+            .map(|t| match t {
+                VarType::Integer => 'I',
+                VarType::Single => 'S',
+                VarType::Double => 'D',
+                VarType::String => 'T',
+            })
+            .collect();
+        (vars, dims, types)
+    }
+}
